@@ -86,6 +86,10 @@ def positions_ok(files: dict, impl) -> list:
         f = d.get("file", "")
         if f in files and isinstance(files[f], dict) and "bytes_hex" in files[f]:
             files = {**files, f: bytes.fromhex(files[f]["bytes_hex"]).decode("utf-8", errors="replace")}
+        if f in files and isinstance(files[f], dict) and "raw" in files[f]:
+            if d["cls"] == "InputParsingException" and d["p"] == [0, 0, 0, 0]:
+                continue            # schema violation of an external type file: reported for the file as a whole
+            files = {**files, f: files[f]["raw"]}
         if f not in files or not isinstance(files[f], str):
             if d["cls"] in ("InputParsingException",) and f in files:
                 continue
